@@ -318,8 +318,9 @@ func c02(c *Ctx) {
 		c.Check(okOnly, "R1", "sdk/metric|pipeline.multiCallbacks|used only by addMultiCallback and produce", at(mx.M, rc.Pos()), "callbacks run only under the pipeline lock", "multi-callbacks can be invoked outside produce")
 	}
 
-	c.Rule("R2", "E1 atomic section + E3 must-pass", "every delta method reads out, empties values and advances start inside one critical section on every path", 6)
+	c.Rule("R2", "E1 atomic section + E3 must-pass", "every delta method reads out, empties values and advances start inside one critical section on every path; every measure looks its entry up and writes it back inside one critical section", 10)
 	ruleDeltaAtomic(c, ax, "R2")
+	ruleMeasureAtomic(c, ax, "R2")
 
 	c.Rule("R3", "E5 who-may-write", "cumulative of the synchronous aggregators (sum, histogram, expoHistogram, lastValue) writes neither values nor start", 4)
 	ruleCumulativeRetains(c, ax, "R3")
@@ -555,7 +556,7 @@ func c02(c *Ctx) {
 		c.Check(good, "R10", "sdk/metric|"+nm+"|measure called with the caller's value", at(mx.M, fn.Pos()), "value passed through", "the value handed to the aggregators is not the recorded one")
 	}
 
-	c.Rule("R6", "E3 ordering + E1", "pipeline.produce: callbacks (both kinds) run before the aggregations are computed, all under the pipeline lock; every instrument's compAgg is called", 3)
+	c.Rule("R6", "E3 ordering + E1", "pipeline.produce: callbacks (both kinds) run before the aggregations are computed, all under the pipeline lock; every instrument's compAgg is called and its output is not discarded afterwards", 4)
 	if fn := c.Fn(mx, "R6", "(*pipeline).produce"); fn != nil {
 		g := mx.FG(fn)
 		fCB := lookupField(mx.Pkg, "pipeline", "callbacks")
@@ -606,10 +607,58 @@ func c02(c *Ctx) {
 			c.Check(ok, "R6", "sdk/metric|(*pipeline).produce|compAgg called for every instrument", at(mx.M, comp[0].N.Pos()), "the n > 0 test only filters output", "an instrument's aggregation can be skipped (its delta state is never reset / values never reported): "+why)
 			held := mle.Held(fn)[comp[0]]
 			c.Check(held[varKey(fn.Recv())+".Mutex"], "R6", "sdk/metric|(*pipeline).produce|collection under the pipeline lock", at(mx.M, comp[0].N.Pos()), "pipeline lock held", "collection runs without the pipeline lock")
+			// what the aggregations handed out is delivered: after compAgg ran (delta state is consumed by it) no path discards the
+			// output (empties/clears ScopeMetrics or drops the Resource)
+			rm := fn.Obj.Type().(*types.Signature).Params().At(1)
+			isOut := func(e ast.Expr, fld string) bool {
+				sel, ok := unparen(e).(*ast.SelectorExpr)
+				return ok && sel.Sel.Name == fld && sameVar(minfo, sel.X, rm)
+			}
+			discards := g.Match(func(n ast.Node) bool {
+				switch s := n.(type) {
+				case *ast.AssignStmt:
+					for i, l := range s.Lhs {
+						if len(s.Lhs) != len(s.Rhs) {
+							continue
+						}
+						r := unparen(s.Rhs[i])
+						if isOut(l, "Resource") && isNilIdent(minfo, r) {
+							return true
+						}
+						if isOut(l, "ScopeMetrics") {
+							if isNilIdent(minfo, r) {
+								return true
+							}
+							if se, ok := r.(*ast.SliceExpr); ok && se.High != nil {
+								if tv := minfo.Types[se.High]; tv.Value != nil && tv.Value.ExactString() == "0" {
+									return true
+								}
+							}
+						}
+						if st, ok := unparen(l).(*ast.StarExpr); ok && sameVar(minfo, st.X, rm) {
+							return true
+						}
+					}
+				case *ast.CallExpr:
+					if builtinName(minfo, s) == "clear" && len(s.Args) == 1 && isOut(s.Args[0], "ScopeMetrics") {
+						return true
+					}
+				}
+				return false
+			})
+			after, _ := g.Reach([]*GNode{comp[0]}, nil, nil)
+			lost := ""
+			for _, d := range discards {
+				if after[d] {
+					lost = mx.M.posStr(d.N.Pos())
+				}
+			}
+			c.Check(lost == "", "R6", "sdk/metric|(*pipeline).produce|nothing discards the output once an aggregation has been computed", at(mx.M, fn.Pos()), itoa(len(discards))+" discard site(s), all before the first compAgg",
+				"the collected data is thrown away at "+lost+" after the aggregations ran: a delta aggregation has already emptied its state, so those measurements are never reported")
 		}
 	}
 
-	c.Rule("R7", "E3 ordering", "PeriodicReader.Shutdown: cancel → <-done → producer swap → collect → export only if collect succeeded → exporter.Shutdown; collectAndExport exports only on err == nil; run answers every flush request", 4)
+	c.Rule("R7", "E3 ordering", "PeriodicReader.Shutdown: cancel → <-done → producer swap → collect → export only if collect succeeded → exporter.Shutdown; collectAndExport exports only on err == nil; run answers every flush request", 3)
 	rulePeriodicReader(c, mx, "R7")
 
 	c.Rule("R8", "E2 + E9 siblings", "temporality → compute dispatch in the six Builder methods: Delta ↦ X.delta, otherwise X.cumulative; the measure is the same X's, wrapped by b.filter", 12)
@@ -686,44 +735,35 @@ func rulePeriodicReader(c *Ctx, mx *PkgIndex, rule string) {
 	fDone := lookupField(mx.Pkg, "PeriodicReader", "done")
 	fProd := lookupField(mx.Pkg, "PeriodicReader", "sdkProducer")
 	collect, export := mx.Func("(*PeriodicReader).collect"), mx.Func("(*PeriodicReader).export")
-	m := func(pred func(ast.Node) bool) []*GNode { return g.Match(pred) }
-	cancel := m(func(n ast.Node) bool { call, ok := n.(*ast.CallExpr); return ok && isField(info, call.Fun, fCancel) })
-	done := m(func(n ast.Node) bool { return isRecvFrom(n, func(e ast.Expr) bool { return isField(info, e, fDone) }) })
-	swap := m(func(n ast.Node) bool { return fieldMethodCall(info, n, fProd, "Swap") != nil })
-	col := m(callToDecl(info, collect))
-	exp := m(callToDecl(info, export))
-	esd := m(func(n ast.Node) bool {
+	pCancel := func(n ast.Node) bool { call, ok := n.(*ast.CallExpr); return ok && isField(info, call.Fun, fCancel) }
+	pDone := func(n ast.Node) bool { return isRecvFrom(n, func(e ast.Expr) bool { return isField(info, e, fDone) }) }
+	pSwap := func(n ast.Node) bool { return fieldMethodCall(info, n, fProd, "Swap") != nil }
+	pCol := callToDecl(info, collect)
+	pExp := callToDecl(info, export)
+	pEsd := func(n ast.Node) bool {
 		call, ok := n.(*ast.CallExpr)
 		return ok && isCallTo(info, call, "("+sdkMetric+".Exporter).Shutdown")
-	})
-	chain := [][]*GNode{cancel, done, swap, col, exp}
-	names := []string{"cancel()", "<-done", "sdkProducer.Swap", "collect", "export"}
-	good := true
-	why := ""
-	for i, ns := range chain {
-		if len(ns) != 1 {
-			good, why = false, names[i]+" found "+itoa(len(ns))+" times"
-			break
-		}
-		if i > 0 {
-			if d, _ := g.DominatedByNodes(ns[0], toSet(chain[i-1])); !d {
-				good, why = false, names[i]+" is not preceded by "+names[i-1]
-			}
-		}
 	}
-	if good && len(esd) == 1 {
-		for _, pre := range [][]*GNode{cancel, done, swap} {
-			if d, _ := g.DominatedByNodes(esd[0], toSet(pre)); !d {
+	// the chain, each effect performed directly or through a declared helper of the package
+	good, why := mx.orderedEffects(lit, []func(ast.Node) bool{pCancel, pDone, pSwap, pCol, pExp},
+		[]string{"cancel()", "<-done", "sdkProducer.Swap", "collect", "export"}, 1)
+	if good {
+		esd, _ := mx.effectNodes(lit, pEsd)
+		col, _ := mx.effectNodes(lit, pCol)
+		exp, _ := mx.effectNodes(lit, pExp)
+		swap, _ := mx.effectNodes(lit, pSwap)
+		if len(esd) != 1 {
+			good, why = false, "exporter.Shutdown call sites: "+itoa(len(esd))
+		} else {
+			if d, _ := g.DominatedByNodes(esd[0], toSet(swap)); !d {
 				good, why = false, "exporter.Shutdown not preceded by the stop sequence"
 			}
+			// the exporter is not shut down before the final export: neither collect nor export is reachable from exporter.Shutdown
+			s, _ := g.Reach([]*GNode{esd[0]}, nil, nil)
+			if s[exp[0]] || s[col[0]] {
+				good, why = false, "exporter is shut down before the final export"
+			}
 		}
-		// not before the export: export must not be reachable from exporter.Shutdown
-		s, _ := g.Reach([]*GNode{esd[0]}, nil, nil)
-		if s[exp[0]] || s[col[0]] {
-			good, why = false, "exporter is shut down before the final export"
-		}
-	} else if good {
-		good, why = false, "exporter.Shutdown call sites: "+itoa(len(esd))
 	}
 	c.Check(good, rule, "sdk/metric|(*PeriodicReader).Shutdown|cancel → <-done → swap → collect → export → exporter.Shutdown", at(mx.M, sh.Pos()), "final collection happens after the run loop stopped and before the exporter is shut down", "shutdown order broken: "+why)
 	// export only if collect succeeded (both in Shutdown and collectAndExport)
@@ -735,11 +775,13 @@ func rulePeriodicReader(c *Ctx, mx *PkgIndex, rule string) {
 			})
 		}
 	}
-	for _, f := range []*FuncInfo{lit, mx.Func("(*PeriodicReader).collectAndExport")} {
-		if f == nil {
-			c.Missing(rule, "sdk/metric.(*PeriodicReader).collectAndExport")
+	nExp := 0
+	for _, s := range mx.FindCalls(func(f *FuncInfo, call *ast.CallExpr) bool { return export != nil && callToDecl(info, export)(call) }) {
+		f := s.F
+		if mx.Outer(f).Recv() == nil || !typeIs(mx.Outer(f).Recv().Type(), sdkMetric, "PeriodicReader") {
 			continue
 		}
+		nExp++
 		gg := mx.FG(f)
 		var errVar types.Object
 		inspectNoLit(f.Body(), func(n ast.Node) bool {
@@ -752,12 +794,15 @@ func rulePeriodicReader(c *Ctx, mx *PkgIndex, rule string) {
 			}
 			return true
 		})
-		exps := gg.Match(callToDecl(info, export))
-		good := errVar != nil && len(exps) == 1
+		x := gg.NodeOf(s.N)
+		good := errVar != nil && x != nil
 		if good {
-			good, _ = gg.DominatedByEdges(exps[0], errNil(gg, info, errVar))
+			good, _ = gg.DominatedByEdges(x, errNil(gg, info, errVar))
 		}
-		c.Check(good, rule, "sdk/metric|"+f.Name+"|export only when collect returned nil", at(mx.M, f.Pos()), "export dominated by err == nil", "a failed or partial collection is exported")
+		c.Check(good, rule, "sdk/metric|"+mx.Outer(f).Name+"|export only when collect returned nil", at(mx.M, s.N.Pos()), "export dominated by err == nil", "a failed or partial collection is exported")
+	}
+	if nExp == 0 {
+		c.Missing(rule, "sdk/metric: no call of (*PeriodicReader).export found")
 	}
 	if run := c.Fn(mx, rule, "(*PeriodicReader).run"); run != nil {
 		g := mx.FG(run)
@@ -1052,5 +1097,65 @@ func ruleAggregateFunc(c *Ctx, mx *PkgIndex, rule string) {
 				}
 			}
 		}
+	}
+}
+
+// ruleMeasureAtomic: in each aggregator's measure the read-modify-write of the map entry is one critical section: the
+// aggregator's lock is not released between a read of the values map and a later write-back (otherwise two concurrent first
+// measurements of one attribute set each start from the zero entry and one overwrites the other: a measurement is lost).
+func ruleMeasureAtomic(c *Ctx, ax *PkgIndex, rule string) {
+	info := ax.Pkg.TypesInfo
+	le := c.Locks(ax)
+	for _, sp := range []struct{ fn, typ, mu string }{
+		{"(*valueMap).measure", "valueMap", ".Mutex"}, {"(*lastValue).measure", "lastValue", ".Mutex"},
+		{"(*histValues).measure", "histValues", ".valuesMu"}, {"(*expoHistogram).measure", "expoHistogram", ".valuesMu"},
+	} {
+		fn := c.Fn(ax, rule, sp.fn)
+		fVals := aggField(ax, sp.typ, "values")
+		if fn == nil || fVals == nil {
+			continue
+		}
+		g := ax.FG(fn)
+		mu := varKey(fn.Recv()) + sp.mu
+		isWrite := func(n ast.Node) bool {
+			as, ok := n.(*ast.AssignStmt)
+			if !ok {
+				return false
+			}
+			for _, l := range as.Lhs {
+				if ie, ok := unparen(l).(*ast.IndexExpr); ok && isField(info, ie.X, fVals) {
+					return true
+				}
+			}
+			return false
+		}
+		writes := g.Match(isWrite)
+		// reads: vertices that mention the map and are not pure write-backs
+		var reads []*GNode
+		for _, x := range g.Nodes {
+			if x.N == nil {
+				continue
+			}
+			hit := false
+			inspectNoLit(x.N, func(n ast.Node) bool {
+				if e, ok := n.(ast.Expr); ok && isField(info, e, fVals) {
+					hit = true
+				}
+				return true
+			})
+			if hit && !isWrite(x.N) {
+				reads = append(reads, x)
+			}
+		}
+		bad := ""
+		for _, r := range reads {
+			for _, w := range writes {
+				if rel := le.ReleasesBetween(fn, r, w, mu); rel != nil {
+					bad = "the lock is released at " + ax.M.posStr(rel.N.Pos()) + " between the look-up at " + ax.M.posStr(r.N.Pos()) + " and the write-back at " + ax.M.posStr(w.N.Pos())
+				}
+			}
+		}
+		c.Check(bad == "" && len(reads) > 0 && len(writes) > 0, rule, "aggregate|"+sp.fn+"|look-up and write-back of the entry in one critical section", at(ax.M, fn.Pos()),
+			itoa(len(reads))+" read(s), "+itoa(len(writes))+" write-back(s), no release in between", "a concurrent first measurement of the same attribute set is lost (two goroutines start from the zero entry, the second store overwrites the first): "+bad)
 	}
 }
